@@ -196,6 +196,69 @@ fits the 12 index bits of `tupleIndex` next to the three flag bits. -/
 theorem shared_peak_tuples_fit (glyphs : List (List TupleIn)) :
     (sharedPeakTuples glyphs).length ≤ 4095 := sharedPeakTuples_length glyphs
 
+open FontVerif.GvarLayout in
+/-- **`Gvar::new` → table → `glyph_variation_data(gid)`, end to end.**  If `Gvar::new` accepts the
+glyphs (`.ok`: no `GvarInputError`, no panic) and every `GlyphDeltas` is well formed (`TupleOk`:
+what `GlyphDeltas::new`, the Rust types and `validate` guarantee, `glyphDeltasNew_ok`), then in the
+table write-fonts lays out (`hdr` = the 20 header bytes + offsets array, short or long offsets as
+`compute_flags` decides) glyph `i` — in gid order — resolves through `data_for_gid` to
+* no data at all iff the glyph has no tuples, and otherwise
+* bytes (its data, plus the padding byte of short offsets) on which `GlyphVariationData::new` and
+  the tuple iterator return the glyph's tuples exactly as in `glyph_variations_roundtrip`, peaks
+  looked up in the table's shared tuples (`sharedPeakTuples`). -/
+theorem gvar_new_roundtrip (glyphs : List (Nat × List TupleIn)) (ax : Nat)
+    (shared : List (List Int)) (blobs : List (List Nat))
+    (h : gvarNew glyphs ax = .ok shared blobs)
+    (hok : ∀ g ∈ glyphs, ∀ t ∈ g.2, TupleOk ax t)
+    (hdr : List Nat) (hhdr : hdr.length = dataArrayOffset (useLong blobs) blobs.length)
+    (hsz : (hdr ++ writeData (useLong blobs) hdr.length blobs).length < 4294967296)
+    (i : Nat) (hi : i < blobs.length) :
+    blobs.length = (glyphs.foldr insertByGid []).length ∧
+    ∃ ts, ((glyphs.foldr insertByGid [])[i]?).map (·.2) = some ts ∧
+      match dataForGid (hdr ++ writeData (useLong blobs) hdr.length blobs) (useLong blobs)
+          (dataArrayOffset (useLong blobs) blobs.length) (storedOffsets (useLong blobs) blobs) i with
+      | some none => ts = []
+      | some (some data) => ts ≠ [] ∧ ∃ g, readGlyph ax data = some g ∧
+          g.tuples.map (RawTuple.view shared g.sharedPts) = ts.map TupleIn.view
+      | none => False := by
+  unfold gvarNew at h
+  split at h
+  · cases h
+  · split at h
+    · cases h
+    · simp only [] at h
+      split at h
+      · cases h
+      · rename_i blobs' hm
+        injection h with h1 h2
+        subst h1; subst h2
+        obtain ⟨hl, hv⟩ := mapM_some_length _ _ _ hm
+        have hi' : i < (glyphs.foldr insertByGid []).length := by omega
+        refine ⟨hl, ((glyphs.foldr insertByGid [])[i]).2, by simp [List.getElem?_eq_getElem hi'], ?_⟩
+        have hwi := hv i hi'
+        rw [List.getElem?_eq_getElem hi] at hwi
+        have hmem : (glyphs.foldr insertByGid [])[i] ∈ glyphs :=
+          (mem_sorted glyphs _).mp (List.getElem_mem hi')
+        have hres := gvar_offsets_resolve blobs' (useLong blobs') hdr hhdr hsz i hi
+        rw [hres]
+        have hget : blobs'.getD i [] = blobs'[i] := by
+          rw [List.getD_eq_getElem?_getD, List.getElem?_eq_getElem hi]; rfl
+        rw [hget]
+        by_cases hts : ((glyphs.foldr insertByGid [])[i]).2 = []
+        · rw [hts, writeGlyph_empty] at hwi
+          injection hwi with hwi
+          rw [← hwi]
+          simpa using hts
+        · have hne := writeGlyph_nonempty _ _ hts _ hwi
+          have hemp : blobs'[i].isEmpty = false := by
+            cases hb : blobs'[i] with
+            | nil => exact absurd hb hne
+            | cons _ _ => rfl
+          simp only [hemp, Bool.false_eq_true, if_false]
+          refine ⟨hts, ?_⟩
+          exact writeGlyph_roundtrip ax _ (by have := sharedPeakTuples_length (glyphs.map (·.2)); omega)
+            _ hts (hok _ hmem) _ hwi _
+
 -- non-vacuity: a triangle (+4 phantom points) with a sparse tuple and an all-points tuple, one axis;
 -- the peak is used twice so it is a shared tuple; the second tent needs its intermediate region.
 example :
